@@ -15,6 +15,8 @@ import Robsd.Model.Arena
 import Robsd.Model.RegressHtml
 import Robsd.Model.Runner
 import Robsd.Model.Conf
+import Robsd.Model.Map
+import Robsd.Model.Vector
 /-
   robsd_model: the executable models behind a line protocol.
   One request per line: `<component> <op> <args…>`; byte strings are hex
@@ -262,8 +264,137 @@ def confRun (ws : List String) : String :=
   let r := Conf.configCmd mode env (hexArg (g "file")) (hexArg (g "tmpl"))
   s!"{r.1} {toHex r.2}"
 
+/-! ### libks containers (C20) -/
+
+def mapHdr (s : Map.St) : String :=
+  if s.order.isEmpty then " #0:0:0:0"
+  else s!" #{s.table.buckets.length}:{s.table.numItems}:{if s.table.noexpand then 1 else 0}:{s.table.ineff}"
+
+def idList (l : List Map.Elem) : String := ",".intercalate (l.map fun e => toString e.id)
+
+def mapDump (s : Map.St) : String :=
+  if s.order.isEmpty then "d empty"
+  else
+    let t := s.table
+    let bs := (List.range t.buckets.length).filterMap fun i =>
+      let b := Map.bucketAt t.buckets i
+      if b.chain.isEmpty && b.count == 0 && b.mult == 0 then none
+      else some s!"{i}:{b.count}:{b.mult}:{idList b.chain}"
+    s!"d nb={t.buckets.length} log2={t.log2} items={t.numItems} ideal={t.ideal} nonideal={t.nonideal} ineff={t.ineff} noexpand={if t.noexpand then 1 else 0} order={idList s.order} buckets=" ++ ";".intercalate bs
+
+def mapRun (ops : List String) : String :=
+  let rec go (s : Map.St) (ops : List String) (acc : List String) : List String :=
+    match ops with
+    | [] => acc.reverse
+    | t :: rest =>
+      match t.splitOn ":" with
+      | "I" :: k :: [] =>
+        let r := Map.insert Map.jen s (hexArg k)
+        go r.1 rest (s!"i {r.2.id} {r.2.hashv}{mapHdr r.1}" :: acc)
+      | "F" :: k :: [] =>
+        let o := match Map.find Map.jen s (hexArg k) with
+          | some e => toString e.id
+          | none => "-"
+        go s rest (s!"f {o}{mapHdr s}" :: acc)
+      | "R" :: k :: [] =>
+        let s' := Map.remove Map.jen s (hexArg k)
+        go s' rest (s!"r{mapHdr s'}" :: acc)
+      | "T" :: ids :: [] =>
+        let idl := if ids == "-" then [] else (ids.splitOn ";").filterMap (·.toNat?)
+        let r := Map.drain Map.jen (fun e => idl.contains e.id) (s.order.length + 1) s {} []
+        let out := if r.1.isEmpty then "-" else idList r.1
+        go r.2.1 rest (s!"t {out} {if r.2.2 then 1 else 0}{mapHdr r.2.1}" :: acc)
+      | "D" :: [] => go s rest (mapDump s :: acc)
+      | _ => go s rest ("bad-op" :: acc)
+  "|".intercalate (go {} ops [])
+
+def vecRun (p : Vec.Params) (init : Nat) (ops : List String) : String :=
+  let hdr := fun (s : Vec.St) => s!" #{s.items.length}:{s.siz}"
+  let showOut : Vec.Out → String
+    | .status f => s!"status {if f then 1 else 0}"
+    | .slot none => "slot -"
+    | .slot (some (i, v)) => s!"slot {i} {v}"
+    | .len n => s!"len {n}"
+    | .unit => "unit"
+  let rec go (s : Vec.St) (ops : List String) (acc : List String) : List String :=
+    match ops with
+    | [] => acc.reverse
+    | t :: rest =>
+      let n := fun (x : String) => x.toNat?.getD 0
+      let op : Option Vec.Op := match t.splitOn ":" with
+        | "R" :: k :: [] => some (.reserve (n k))
+        | "A" :: v :: [] => some (.alloc (n v))
+        | "C" :: [] => some .calloc
+        | "P" :: [] => some .pop
+        | "X" :: [] => some .clear
+        | "S" :: [] => some .sort
+        | "F" :: [] => some .first
+        | "L" :: [] => some .last
+        | "N" :: [] => some .length
+        | _ => none
+      match op with
+      | some o =>
+        let r := Vec.step p s o
+        go r.1 rest ((showOut r.2 ++ hdr r.1) :: acc)
+      | none =>
+        if t == "D" then
+          go s rest ((s!"items {if s.items.isEmpty then "-" else ",".intercalate (s.items.map toString)}" ++ hdr s) :: acc)
+        else go s rest ("bad-op" :: acc)
+  let s0 : Vec.St := if init > 0 then (Vec.reserve1 p {} init).1 else {}
+  "|".intercalate (go s0 ops [])
+
+def bufRun (init : Nat) (ops : List String) : String :=
+  let hdr := fun (s : Buf.St) => s!" #{s.bytes.length}:{s.siz}"
+  let st := fun (b : Bool) => s!"status {if b then 1 else 0}"
+  let rec go (s : Buf.St) (ops : List String) (acc : List String) : List String :=
+    match ops with
+    | [] => acc.reverse
+    | t :: rest =>
+      let n := fun (x : String) => x.toNat?.getD 0
+      match t.splitOn ":" with
+      | "A" :: k :: [] =>
+        match Buf.alloc (n k) with
+        | some s' => go s' rest ((st false ++ hdr s') :: acc)
+        | none => go s rest ((st true ++ hdr s) :: acc)
+      | "P" :: h :: [] => let r := Buf.puts s (hexArg h); go r.1 rest ((st r.2 ++ hdr r.1) :: acc)
+      | "C" :: c :: [] => let r := Buf.putc s (UInt8.ofNat (n c)); go r.1 rest ((st r.2 ++ hdr r.1) :: acc)
+      | "F" :: h :: [] => let r := Buf.printf s (hexArg h); go r.1 rest ((st r.2 ++ hdr r.1) :: acc)
+      | "R" :: [] => let s' := Buf.reset s; go s' rest (("unit" ++ hdr s') :: acc)
+      | "O" :: k :: [] => let r := Buf.pop s (n k); go r.1 rest ((s!"n {r.2}" ++ hdr r.1) :: acc)
+      | "S" :: [] =>
+        let r := Buf.str s
+        let o := match r.1 with
+          | some b => toHex b
+          | none => "!"
+        go r.2 rest ((s!"bytes {o}" ++ hdr r.2) :: acc)
+      | "D" :: f :: cs :: [] =>
+        let file := hexArg f
+        let chunks := if cs == "-" then [] else (cs.splitOn ";").filterMap (·.toNat?)
+        match Buf.alloc 8192 with
+        | none => go s rest ("status 1 #0:0" :: acc)
+        | some s0 =>
+          match Buf.readFd (file.length + 1) s0 file chunks with
+          | some s' => go s' rest ((st false ++ hdr s') :: acc)
+          | none => go s rest ("status 1 #0:0" :: acc)
+      | "L" :: [] =>
+        let ls := Buf.getlineAll (s.bytes.length + 1) s {}
+        let o := if ls.isEmpty then "." else ",".intercalate (ls.map fun l => toHex (Bytes.cstr l))
+        go s rest ((s!"lines {o}" ++ hdr s) :: acc)
+      | "N" :: [] => go s rest ((s!"n {s.bytes.length}" ++ hdr s) :: acc)
+      | "G" :: [] => go s rest ((s!"bytes {toHex s.bytes}" ++ hdr s) :: acc)
+      | "M" :: h :: [] =>
+        go s rest ((s!"cmp {if Buf.cmpNe s ⟨hexArg h, 0⟩ then 1 else 0}" ++ hdr s) :: acc)
+      | _ => go s rest ("bad-op" :: acc)
+  match Buf.alloc init with
+  | some s0 => "|".intercalate (go s0 ops [])
+  | none => "alloc-failed"
+
 def handle (ws : List String) : String :=
   match ws with
+  | "map" :: ops :: [] => mapRun (listOf ops)
+  | "vec" :: hdr :: stride :: init :: ops :: [] =>
+    vecRun ⟨stride.toNat?.getD 8, hdr.toNat?.getD 56⟩ (init.toNat?.getD 0) (listOf ops)
+  | "buf" :: init :: ops :: [] => bufRun (init.toNat?.getD 0) (listOf ops)
   | "conf" :: rest => confRun rest
   | "runner" :: fuel :: sig :: nat :: aterm :: akill :: [] => runnerRun (fuel.toNat?.getD 0) sig nat aterm akill
   | "rhtml" :: order :: invs => rhtmlRun (natList order) (invs.filterMap rhtmlInv)
